@@ -302,6 +302,26 @@ def t6_programs(tier):
                {"t": "T6", "g": gb, "twice_in": twice_in, "ends": ends})
 
 
+def t7_programs(tier):
+    """parent and child (and grandchild) wait for the SAME event: the parent ends on it, which ends the child whose head matched too"""
+    c_after = [["start ActCAction()", "match E3()"], ["await ActCAction()"], ["send Tick()", "match E3()"], ["start d", "match E3()"],
+               ["activate d", "match E3()"]]
+    c_wait = [["match E1()"], ["when E1()", "  send M1()", "or when E2()", "  send M2()"], ["match E1() or E2()"]]
+    for cw, ca, pe, deep in itertools.product(c_wait, c_after, ["finish", "abort"], [False, True]):
+        c = "flow c\n" + ind(cw + ca)
+        d = "flow d\n" + ind(["start ActDAction()", "match E3()"])
+        if deep:
+            mid = "flow m\n" + ind(["start c", "match E1()", "start ActMAction()", "match E3()"])
+            p = "flow p\n" + ind(["start m", "match E1()"] + (["abort"] if pe == "abort" else []))
+        else:
+            mid = ""
+            p = "flow p\n" + ind(["start c", "match E1()"] + (["abort"] if pe == "abort" else []))
+        main = "flow main\n" + ind(["start p", "match Never()"])
+        activators = {}  # (activate d is not c's first statement: the static activator rule does not apply)
+        yield (c + "\n" + d + "\n" + mid + "\n" + p + "\n" + main, activators, {}, ["E1", "E2", "E3"], [("StopFlow", {"flow_id": "p"})],
+               {"t": "T7", "c_wait": cw, "c_after": ca, "p_end": pe, "deep": deep})
+
+
 def explore(task):
     src, activators, once, evnames, internals, info, depth = task[:7]
     with_started = task[7] if len(task) > 7 else False
@@ -327,7 +347,7 @@ def explore(task):
 def tasks(tier):
     out = []
     d = {"quick": (4, 5, 5, 4), "thorough": (6, 7, 7, 6)}[tier]
-    for gen, depth in ((t1_programs, d[0]), (t2_programs, d[1]), (t3_programs, d[2]), (t4_programs, d[3]), (t5_programs, d[1]), (t6_programs, d[2])):
+    for gen, depth in ((t1_programs, d[0]), (t2_programs, d[1]), (t3_programs, d[2]), (t4_programs, d[3]), (t5_programs, d[1]), (t6_programs, d[2]), (t7_programs, d[0])):
         for src, act, once, evs, ints, info in gen(tier):
             out.append((src, act, once, evs, ints, info, depth))
     # the same scope / shared-action programs with action Started events in the alphabet
